@@ -128,5 +128,5 @@ theorem C04.facts_encoders :
     Facts.window_groupKeyPartSep = "|" ∧ Facts.window_groupKeyNullPart = "\\N" ∧
     Facts.window_CountingWindow_getKey_strlits = ["__global__"] ∧
     Facts.window_extractSessionCompositeKey_strlits = ["default"] ∧
-    Facts.window_GlobalWindow_getKeyAndValues_strlits = ["__global__", "%v"] ∧
+    Facts.window_GlobalWindow_getKeyAndValues_strlits = ["__global__", "(", "%v"] ∧
     Facts.window_escapeKeyPart_strlits = ["\\|", "\\", "|", "\\"] := by decide
